@@ -92,21 +92,22 @@ theorem Inv.fill {data : Bytes} {r : Reader} (h : Inv data r) : Inv data (fillBu
         congr 3; omega
 
 /-- a property `P` of readers that every primitive step preserves, and a property `E` of the errors that can arise -/
-structure Closed (P : Reader → Prop) (E : Err → Prop) : Prop where
+structure Closed (P : Reader → Prop) (Pio : Reader → Prop) (E : Err → Prop) : Prop where
   adv : ∀ {r r' : Reader} {k : Nat}, P r → advance r k = some r' → P r'
   bom : ∀ {r : Reader} (b : Bom), P r → P { r with bom := b }
-  fill : ∀ {r : Reader}, P r → P (fillBuf r).1
+  fill : ∀ {r : Reader}, P r → (fillBuf r).2 ≠ .io → P (fillBuf r).1
+  fillio : ∀ {r : Reader}, P r → (fillBuf r).2 = .io → Pio (fillBuf r).1
   full : ∀ {r : Reader}, P r → (fillBuf r).2 = .full → E .full
   io : ∀ {r : Reader}, P r → (fillBuf r).2 = .io → E .io
   eof : E .eof
 
-/-- a result of a reader call keeps `P`, and an error it reports satisfies `E` -/
-def ResP {α : Type} (P : Reader → Prop) (E : Err → Prop) : Res α → Prop
+/-- a result of a reader call keeps `P` (after an I/O error: `Pio`), and an error it reports satisfies `E` -/
+def ResP {α : Type} (P : Reader → Prop) (Pio : Reader → Prop) (E : Err → Prop) : Res α → Prop
   | .ok r _ => P r
-  | .err r e => P r ∧ E e
+  | .err r e => (e ≠ .io → P r) ∧ (e = .io → Pio r) ∧ E e
   | _ => True
 
-theorem run_inv {P : Reader → Prop} {E : Err → Prop} (c : Closed P E) : ∀ (fuel : Nat) (call : Call) (r : Reader), P r → ResP P E (run fuel call r) := by
+theorem run_inv {P Pio : Reader → Prop} {E : Err → Prop} (c : Closed P Pio E) : ∀ (fuel : Nat) (call : Call) (r : Reader), P r → ResP P Pio E (run fuel call r) := by
   intro fuel
   induction fuel with
   | zero => intro call r _; simp [run, ResP]
@@ -127,17 +128,19 @@ theorem run_inv {P : Reader → Prop} {E : Err → Prop} (c : Closed P E) : ∀ 
       | bomFill =>
         simp only
         have hf := c.fill (c.bom bom h)
-        generalize hfr : fillBuf { r with bom := bom } = fr at hf
+        have hfio := c.fillio (c.bom bom h)
+        generalize hfr : fillBuf { r with bom := bom } = fr at hf hfio
         have hP0 := c.bom bom h
         obtain ⟨r', fl⟩ := fr
-        simp only at hf
+        simp only at hf hfio
         cases fl with
         | ok n =>
+          replace hf := hf (by simp)
           cases n with
           | zero => exact ih _ _ (c.bom _ hf)
           | succ n => exact ih _ _ hf
-        | full => exact ⟨hf, c.full hP0 (by rw [hfr])⟩
-        | io => exact ⟨hf, c.io hP0 (by rw [hfr])⟩
+        | full => exact ⟨fun _ => hf (by simp), fun h => by simp at h, c.full hP0 (by rw [hfr])⟩
+        | io => exact ⟨fun h => absurd rfl h, fun _ => hfio rfl, c.io hP0 (by rw [hfr])⟩
     | refill st carry off =>
       rw [run]
       cases ha : advance r (r.win.length - carry) with
@@ -148,14 +151,16 @@ theorem run_inv {P : Reader → Prop} {E : Err → Prop} (c : Closed P E) : ∀ 
         · simp [ResP]
         · have h0 := c.adv h ha
           have hf := c.fill h0
-          generalize hfr : fillBuf r0 = fr at hf
+          have hfio := c.fillio h0
+          generalize hfr : fillBuf r0 = fr at hf hfio
           have hP0 := h0
           obtain ⟨r1, fl⟩ := fr
-          simp only at hf
+          simp only at hf hfio
           cases fl with
-          | full => exact ⟨hf, c.full hP0 (by rw [hfr])⟩
-          | io => exact ⟨hf, c.io hP0 (by rw [hfr])⟩
+          | full => exact ⟨fun _ => hf (by simp), fun h => by simp at h, c.full hP0 (by rw [hfr])⟩
+          | io => exact ⟨fun h => absurd rfl h, fun _ => hfio rfl, c.io hP0 (by rw [hfr])⟩
           | ok n =>
+            replace hf := hf (by simp)
             cases n with
             | zero =>
               simp only
@@ -163,15 +168,15 @@ theorem run_inv {P : Reader → Prop} {E : Err → Prop} (c : Closed P E) : ∀ 
               | none =>
                 simp only
                 split
-                · first | exact hf | exact ⟨hf, c.eof⟩
+                · first | exact hf | exact ⟨fun _ => hf, fun h => by simp at h, c.eof⟩
                 · split
                   · simp [ResP]
                   · split
                     · cases ha2 : advance r1 carry with
                       | none => simp [ResP]
                       | some r2 => simp only [ResP]; exact c.adv hf ha2
-                    · first | exact hf | exact ⟨hf, c.eof⟩
-              | quote => first | exact hf | exact ⟨hf, c.eof⟩
+                    · first | exact hf | exact ⟨fun _ => hf, fun h => by simp at h, c.eof⟩
+              | quote => first | exact hf | exact ⟨fun _ => hf, fun h => by simp at h, c.eof⟩
               | unquoted =>
                 simp only
                 split
@@ -205,7 +210,7 @@ end Jomini.TextReader
 namespace Jomini.TextReader
 open Jomini
 
-theorem nextOpt_inv {P : Reader → Prop} {E : Err → Prop} (c : Closed P E) (fuel : Nat) (r : Reader) (h : P r) : ResP P E (nextOpt fuel r) := by
+theorem nextOpt_inv {P Pio : Reader → Prop} {E : Err → Prop} (c : Closed P Pio E) (fuel : Nat) (r : Reader) (h : P r) : ResP P Pio E (nextOpt fuel r) := by
   unfold nextOpt
   simp only
   split
@@ -240,21 +245,21 @@ theorem nextOpt_inv {P : Reader → Prop} {E : Err → Prop} (c : Closed P E) (f
                 · simp [ResP]
               · exact run_inv c fuel .fallback r h
 
-theorem read_inv {P : Reader → Prop} {E : Err → Prop} (c : Closed P E) (fuel : Nat) (r : Reader) (h : P r) : ResP P E (read fuel r) := by
+theorem read_inv {P Pio : Reader → Prop} {E : Err → Prop} (c : Closed P Pio E) (fuel : Nat) (r : Reader) (h : P r) : ResP P Pio E (read fuel r) := by
   have := nextOpt_inv c fuel r h
   unfold read
   cases hn : nextOpt fuel r with
   | ok r' a =>
     rw [hn] at this
     cases a with
-    | none => exact ⟨this, c.eof⟩
+    | none => exact ⟨fun _ => this, fun h => by simp at h, c.eof⟩
     | some t => exact this
   | err r' e => rw [hn] at this; exact this
   | panic => simp [ResP]
   | ub => simp [ResP]
   | fuel => simp [ResP]
 
-theorem readBytes_inv {P : Reader → Prop} {E : Err → Prop} (c : Closed P E) : ∀ (fuel : Nat) (r : Reader) (n : Nat), P r → ResP P E (readBytes fuel r n) := by
+theorem readBytes_inv {P Pio : Reader → Prop} {E : Err → Prop} (c : Closed P Pio E) : ∀ (fuel : Nat) (r : Reader) (n : Nat), P r → ResP P Pio E (readBytes fuel r n) := by
   intro fuel
   induction fuel with
   | zero => intro r n _; simp [readBytes, ResP]
@@ -263,23 +268,25 @@ theorem readBytes_inv {P : Reader → Prop} {E : Err → Prop} (c : Closed P E) 
     rw [readBytes]
     split
     · have hf := c.fill h
-      generalize hfr : fillBuf r = fr at hf
+      have hfio := c.fillio h
+      generalize hfr : fillBuf r = fr at hf hfio
       have hP0 := h
       obtain ⟨r1, fl⟩ := fr
-      simp only at hf
+      simp only at hf hfio
       cases fl with
-      | full => exact ⟨hf, c.full hP0 (by rw [hfr])⟩
-      | io => exact ⟨hf, c.io hP0 (by rw [hfr])⟩
+      | full => exact ⟨fun _ => hf (by simp), fun h => by simp at h, c.full hP0 (by rw [hfr])⟩
+      | io => exact ⟨fun h => absurd rfl h, fun _ => hfio rfl, c.io hP0 (by rw [hfr])⟩
       | ok k =>
+        replace hf := hf (by simp)
         cases k with
-        | zero => first | exact hf | exact ⟨hf, c.eof⟩
+        | zero => first | exact hf | exact ⟨fun _ => hf, fun h => by simp at h, c.eof⟩
         | succ k => exact ih _ _ hf
     · cases ha : advance r n with
       | none => simp [ResP]
       | some r' => simp only [ResP]; exact c.adv h ha
 
-theorem skipLoop_inv {P : Reader → Prop} {E : Err → Prop} (c : Closed P E) : ∀ (fuel : Nat) (r : Reader) (st : SkipSt) (depth : Int) (ptr : Nat),
-    P r → ResP P E (skipLoop fuel r st depth ptr) := by
+theorem skipLoop_inv {P Pio : Reader → Prop} {E : Err → Prop} (c : Closed P Pio E) : ∀ (fuel : Nat) (r : Reader) (st : SkipSt) (depth : Int) (ptr : Nat),
+    P r → ResP P Pio E (skipLoop fuel r st depth ptr) := by
   intro fuel
   induction fuel with
   | zero => intro r st depth ptr _; simp [skipLoop, ResP]
@@ -298,25 +305,27 @@ theorem skipLoop_inv {P : Reader → Prop} {E : Err → Prop} (c : Closed P E) :
         simp only
         have h0 := c.adv h ha
         have hf := c.fill h0
-        generalize hfr : fillBuf r0 = fr at hf
+        have hfio := c.fillio h0
+        generalize hfr : fillBuf r0 = fr at hf hfio
         have hP0 := h0
         obtain ⟨r1, fl⟩ := fr
-        simp only at hf
+        simp only at hf hfio
         cases fl with
-        | full => exact ⟨hf, c.full hP0 (by rw [hfr])⟩
-        | io => exact ⟨hf, c.io hP0 (by rw [hfr])⟩
+        | full => exact ⟨fun _ => hf (by simp), fun h => by simp at h, c.full hP0 (by rw [hfr])⟩
+        | io => exact ⟨fun h => absurd rfl h, fun _ => hfio rfl, c.io hP0 (by rw [hfr])⟩
         | ok k =>
+          replace hf := hf (by simp)
           cases k with
-          | zero => first | exact hf | exact ⟨hf, c.eof⟩
+          | zero => first | exact hf | exact ⟨fun _ => hf, fun h => by simp at h, c.eof⟩
           | succ k => exact ih _ _ _ _ hf
     · simp [ResP]
     · simp [ResP]
 
-theorem skipContainer_inv {P : Reader → Prop} {E : Err → Prop} (c : Closed P E) (fuel : Nat) (r : Reader) (h : P r) :
-    ResP P E (skipContainer fuel r) := skipLoop_inv c fuel r .none 1 0 h
+theorem skipContainer_inv {P Pio : Reader → Prop} {E : Err → Prop} (c : Closed P Pio E) (fuel : Nat) (r : Reader) (h : P r) :
+    ResP P Pio E (skipContainer fuel r) := skipLoop_inv c fuel r .none 1 0 h
 
-theorem skipUnquotedValue_inv {P : Reader → Prop} {E : Err → Prop} (c : Closed P E) : ∀ (fuel : Nat) (r : Reader), P r →
-    ResP P E (skipUnquotedValue fuel r) := by
+theorem skipUnquotedValue_inv {P Pio : Reader → Prop} {E : Err → Prop} (c : Closed P Pio E) : ∀ (fuel : Nat) (r : Reader), P r →
+    ResP P Pio E (skipUnquotedValue fuel r) := by
   intro fuel
   induction fuel with
   | zero => intro r _; simp [skipUnquotedValue, ResP]
@@ -335,20 +344,24 @@ theorem skipUnquotedValue_inv {P : Reader → Prop} {E : Err → Prop} (c : Clos
         simp only
         have h0 := c.adv h ha
         have hf := c.fill h0
-        generalize hfr : fillBuf r0 = fr at hf
+        have hfio := c.fillio h0
+        generalize hfr : fillBuf r0 = fr at hf hfio
         have hP0 := h0
         obtain ⟨r1, fl⟩ := fr
-        simp only at hf
+        simp only at hf hfio
         cases fl with
-        | full => exact ⟨hf, c.full hP0 (by rw [hfr])⟩
-        | io => exact ⟨hf, c.io hP0 (by rw [hfr])⟩
+        | full => exact ⟨fun _ => hf (by simp), fun h => by simp at h, c.full hP0 (by rw [hfr])⟩
+        | io => exact ⟨fun h => absurd rfl h, fun _ => hfio rfl, c.io hP0 (by rw [hfr])⟩
         | ok k =>
+          replace hf := hf (by simp)
           cases k with
-          | zero => first | exact hf | exact ⟨hf, c.eof⟩
+          | zero => first | exact hf | exact ⟨fun _ => hf, fun h => by simp at h, c.eof⟩
           | succ k => exact ih _ hf
 
-theorem lexAll_inv {P : Reader → Prop} {E : Err → Prop} (c : Closed P E) (fuel : Nat) : ∀ (n : Nat) (r : Reader) (acc : List Token), P r →
-    P (lexAll fuel n r acc).final ∧ ∀ e, (lexAll fuel n r acc).out = .err e → E e := by
+theorem lexAll_inv {P Pio : Reader → Prop} {E : Err → Prop} (c : Closed P Pio E) (fuel : Nat) : ∀ (n : Nat) (r : Reader) (acc : List Token), P r →
+    ((lexAll fuel n r acc).out ≠ .err .io → P (lexAll fuel n r acc).final) ∧
+    ((lexAll fuel n r acc).out = .err .io → Pio (lexAll fuel n r acc).final) ∧
+    ∀ e, (lexAll fuel n r acc).out = .err e → E e := by
   intro n
   induction n with
   | zero => intro r acc h; simp [lexAll]; exact h
@@ -361,25 +374,25 @@ theorem lexAll_inv {P : Reader → Prop} {E : Err → Prop} (c : Closed P E) (fu
     | ok r' a =>
       rw [hx] at hn
       cases a with
-      | none => simp only; exact ⟨hn, fun e he => by simp at he⟩
+      | none => simp only; exact ⟨fun _ => hn, fun he => by simp at he, fun e he => by simp at he⟩
       | some t => simp only; exact ih r' _ hn
     | err r' e =>
       rw [hx] at hn
       simp only
-      refine ⟨hn.1, fun e' he => ?_⟩
+      refine ⟨fun hne => hn.1 (by intro he; apply hne; rw [he]), fun he => hn.2.1 (by simpa using he), fun e' he => ?_⟩
       simp only [Outcome.err.injEq] at he
-      rw [← he]; exact hn.2
-    | panic => simp only; exact ⟨h, fun e he => by simp at he⟩
-    | ub => simp only; exact ⟨h, fun e he => by simp at he⟩
-    | fuel => simp only; exact ⟨h, fun e he => by simp at he⟩
+      rw [← he]; exact hn.2.2
+    | panic => simp only; exact ⟨fun _ => h, fun he => by simp at he, fun e he => by simp at he⟩
+    | ub => simp only; exact ⟨fun _ => h, fun he => by simp at he, fun e he => by simp at he⟩
+    | fuel => simp only; exact ⟨fun _ => h, fun he => by simp at he, fun e he => by simp at he⟩
 
 /-- the window/position invariant is closed under the primitive steps -/
-theorem Inv_closed (data : Bytes) : Closed (Inv data) (fun _ => True) :=
-  { adv := fun h ha => h.advance ha, bom := fun b h => h.setBom b, fill := fun h => h.fill,
+theorem Inv_closed (data : Bytes) : Closed (Inv data) (Inv data) (fun _ => True) :=
+  { adv := fun h ha => h.advance ha, bom := fun b h => h.setBom b, fill := fun h _ => h.fill, fillio := fun h _ => h.fill,
     full := fun _ _ => trivial, io := fun _ _ => trivial, eof := trivial }
 
 /-- a fault-free schedule stays fault-free, and `fill_buf` then never reports an I/O error -/
-theorem NoFaults_closed : Closed (fun r => NoFaults r.src.sched) (fun e => e ≠ .io) := by
+theorem NoFaults_closed : Closed (fun r => NoFaults r.src.sched) (fun _ => True) (fun e => e ≠ .io) := by
   have key : ∀ (s : Src) (space : Nat), NoFaults s.sched →
       NoFaults (s.read space).1.sched ∧ (s.read space).2 ≠ none := by
     intro s space hnf
@@ -394,13 +407,13 @@ theorem NoFaults_closed : Closed (fun r => NoFaults r.src.sched) (fun e => e ≠
       | repeat_ n => exact ⟨by intro x hx; exact hnf x (by rw [hs]; exact hx), by simp⟩
       | fail => exact absurd rfl h1.1
       | failForever => exact absurd rfl h1.2
-  refine { adv := ?_, bom := fun _ h => h, fill := ?_, full := fun _ _ => by simp, io := ?_, eof := by simp }
+  refine { adv := ?_, bom := fun _ h => h, fill := ?_, fillio := fun _ _ => trivial, full := fun _ _ => by simp, io := ?_, eof := by simp }
   · intro r r' k h ha
     unfold TextReader.advance at ha
     split at ha
     · simp only [Option.some.injEq] at ha; subst ha; exact h
     · simp at ha
-  · intro r h
+  · intro r h _
     unfold fillBuf
     split
     · exact h
@@ -425,11 +438,137 @@ theorem NoFaults_closed : Closed (fun r => NoFaults r.src.sched) (fun e => e ≠
         | none => exact absurd rfl this.2
         | some bs => simp at hio
 
+/-- as long as no call reports an I/O error, no read call has failed -/
+theorem Faults0_closed : Closed (fun r => r.src.faults = 0) (fun _ => True) (fun _ => True) := by
+  have key : ∀ (s : Src) (space : Nat), (s.read space).2 ≠ none → (s.read space).1.faults = s.faults := by
+    intro s space
+    unfold Src.read
+    cases s.sched with
+    | nil => intro _; rfl
+    | cons st t => cases st <;> simp
+  refine { adv := ?_, bom := fun _ h => h, fill := ?_, fillio := fun _ _ => trivial, full := fun _ _ => trivial,
+           io := fun _ _ => trivial, eof := trivial }
+  · intro r r' k h ha
+    unfold TextReader.advance at ha
+    split at ha
+    · simp only [Option.some.injEq] at ha; subst ha; exact h
+    · simp at ha
+  · intro r h hnio
+    unfold fillBuf at hnio ⊢
+    split
+    · exact h
+    · split
+      · exact h
+      · rename_i h1 h2
+        simp only [h1, if_false, h2] at hnio
+        have := key r.src (r.cap - r.win.length)
+        generalize r.src.read (r.cap - r.win.length) = res at this hnio
+        obtain ⟨src', ob⟩ := res
+        cases ob with
+        | none => simp at hnio
+        | some bs => simp only; rw [this (by simp)]; exact h
+
+/-- **C20: a reached fault always ends in an error.**  `Src.faults` counts the read calls that failed (transient `fail`
+or persistent `failForever`).  Whatever the schedule, if the run of `next` calls does not end in an I/O error then no
+read call failed at all; equivalently, as soon as a fault step is reached — in particular a persistent one — the run ends
+with `err io` (never with a clean end, `Eof`, or further tokens). -/
+theorem C20_reached_fault_is_error (cap : Nat) (sched : List Step) (data : Bytes) (fuel n : Nat)
+    (h : (lexAll fuel n (fromReader cap sched data) []).out ≠ .err .io) :
+    (lexAll fuel n (fromReader cap sched data) []).final.src.faults = 0 :=
+  (lexAll_inv Faults0_closed fuel n (fromReader cap sched data) [] rfl).1 h
+
+/-- the same for every single call of `read`, `read_bytes`, `skip_container`, `skip_unquoted_value` on a reader that has
+not seen a fault yet: a result other than `err io` means that no read call failed during the call. -/
+theorem C20_call_fault_is_error (r : Reader) (h0 : r.src.faults = 0) (fuel nbytes : Nat) :
+    ResP (fun r => r.src.faults = 0) (fun _ => True) (fun _ => True) (read fuel r) ∧
+    ResP (fun r => r.src.faults = 0) (fun _ => True) (fun _ => True) (readBytes fuel r nbytes) ∧
+    ResP (fun r => r.src.faults = 0) (fun _ => True) (fun _ => True) (skipContainer fuel r) ∧
+    ResP (fun r => r.src.faults = 0) (fun _ => True) (fun _ => True) (skipUnquotedValue fuel r) :=
+  ⟨read_inv Faults0_closed fuel r h0, readBytes_inv Faults0_closed fuel r nbytes h0,
+   skipContainer_inv Faults0_closed fuel r h0, skipUnquotedValue_inv Faults0_closed fuel r h0⟩
+
+/-- **`read_bytes` under every schedule (faults included).**  With the reader related to the remaining input `d`, the
+call either reports an I/O error, or `BufferFull` (only if `n` exceeds the capacity), or returns exactly the next `n`
+bytes of the input and leaves the reader related to the rest — `Eof` iff fewer than `n` bytes remain.  It never returns
+other bytes than the fault-free call. -/
+theorem readBytes_spec (m : Nat) : ∀ (r : Reader) (pos : Nat) (bom : Bom) (d : Bytes) (n fuel : Nat),
+    r.src.rest.length ≤ m → Rel r pos bom d → m + 1 ≤ fuel →
+    (∃ r', readBytes fuel r n = .err r' .io) ∨
+    (∃ r', readBytes fuel r n = .err r' .full ∧ r.cap ≠ 0 ∧ r.cap < n) ∨
+    (if n ≤ d.length then ∃ r', readBytes fuel r n = .ok r' (d.take n) ∧ Rel r' (pos + n) bom (d.drop n)
+     else ∃ r', readBytes fuel r n = .err r' .eof) := by
+  induction m with
+  | zero =>
+    intro r pos bom d n fuel hm hrel hfuel
+    obtain ⟨f, rfl⟩ : ∃ f, fuel = f + 1 := ⟨fuel - 1, by omega⟩
+    have he : r.src.rest = [] := List.eq_nil_of_length_eq_zero (by omega)
+    have hd : d = r.win := by rw [← hrel.data, he]; simp
+    rw [readBytes]
+    by_cases hlt : r.win.length < n
+    · simp only [hlt, if_true]
+      rcases hrel.fill with ⟨rio, hf, _⟩ | ⟨hf, h1, h2⟩ | ⟨_, r1, hf, _⟩ | ⟨hne, _⟩
+      · left; rw [hf]; exact ⟨rio, rfl⟩
+      · right; left; rw [hf]; exact ⟨r, rfl, h1, by omega⟩
+      · right; right
+        rw [hf]
+        have : ¬ n ≤ d.length := by rw [hd]; omega
+        simp only [this, if_false]
+        exact ⟨r1, rfl⟩
+      · exact absurd he hne
+    · right; right
+      simp only [hlt, if_false]
+      have hn : n ≤ d.length := by rw [hd]; omega
+      simp only [hn, if_true]
+      obtain ⟨r', ha, hrel', _, _, _⟩ := hrel.advance n (by omega)
+      simp only [ha]
+      exact ⟨r', by rw [hd], hrel'⟩
+  | succ m ih =>
+    intro r pos bom d n fuel hm hrel hfuel
+    obtain ⟨f, rfl⟩ : ∃ f, fuel = f + 1 := ⟨fuel - 1, by omega⟩
+    have hd : d = r.win ++ r.src.rest := hrel.data.symm
+    rw [readBytes]
+    by_cases hlt : r.win.length < n
+    · simp only [hlt, if_true]
+      rcases hrel.fill with ⟨rio, hf, _⟩ | ⟨hf, h1, h2⟩ | ⟨he, r1, hf, _⟩ | ⟨hne, r1, k, hf, hrel1, hk, hw1, hr1, hc1, _⟩
+      · left; rw [hf]; exact ⟨rio, rfl⟩
+      · right; left; rw [hf]; exact ⟨r, rfl, h1, by omega⟩
+      · right; right
+        rw [hf]
+        have : ¬ n ≤ d.length := by rw [hd, he]; simp; omega
+        simp only [this, if_false]
+        exact ⟨r1, rfl⟩
+      · rw [hf]
+        simp only
+        have hl1 : r1.src.rest.length ≤ m := by rw [hr1]; simp; omega
+        rcases ih r1 pos bom d n f hl1 hrel1 (by omega) with h | ⟨r', h, h1, h2⟩ | h
+        · left; exact h
+        · right; left; exact ⟨r', h, by rw [← hc1]; exact h1, by rw [← hc1]; exact h2⟩
+        · right; right; exact h
+    · right; right
+      simp only [hlt, if_false]
+      have hn : n ≤ d.length := by rw [hd]; simp; omega
+      simp only [hn, if_true]
+      obtain ⟨r', ha, hrel', _, _, _⟩ := hrel.advance n (by omega)
+      simp only [ha]
+      refine ⟨r', ?_, hrel'⟩
+      rw [hd, List.take_append_of_le_length (by omega)]
+
+/-- **C20, `read_bytes`**: under every schedule (short reads, transient and persistent faults) `read_bytes(n)` either
+reports an I/O error (or `BufferFull` when `n` exceeds the capacity), or returns exactly the bytes the fault-free call
+returns — the next `n` bytes of the input — leaving the reader related to the rest; `Eof` iff fewer than `n` remain. -/
+theorem C20_text_read_bytes (r : Reader) (pos : Nat) (bom : Bom) (d : Bytes) (n fuel : Nat)
+    (hrel : Rel r pos bom d) (hfuel : r.src.rest.length + 1 ≤ fuel) :
+    (∃ r', readBytes fuel r n = .err r' .io) ∨
+    (∃ r', readBytes fuel r n = .err r' .full ∧ r.cap ≠ 0 ∧ r.cap < n) ∨
+    (if n ≤ d.length then ∃ r', readBytes fuel r n = .ok r' (d.take n) ∧ Rel r' (pos + n) bom (d.drop n)
+     else ∃ r', readBytes fuel r n = .err r' .eof) :=
+  readBytes_spec _ r pos bom d n fuel (Nat.le_refl _) hrel hfuel
+
 /-- with a fault-free schedule the streamed run never ends in an I/O error -/
 theorem lexAll_no_io (cap : Nat) (sched : List Step) (data : Bytes) (fuel n : Nat) (hnf : NoFaults sched) :
     (lexAll fuel n (fromReader cap sched data) []).out ≠ .err .io := by
   intro h
-  exact (lexAll_inv NoFaults_closed fuel n (fromReader cap sched data) [] (by simpa [fromReader] using hnf)).2 _ h rfl
+  exact (lexAll_inv NoFaults_closed fuel n (fromReader cap sched data) [] (by simpa [fromReader] using hnf)).2.2 _ h rfl
 
 /-- **C20 (text reader), partial: what holds under every schedule, fault steps included.**
 Whatever the `Read` does — short reads down to one byte, transient failures, a persistent failure — after any
@@ -448,7 +587,11 @@ theorem C20_text_reader_partial (cap : Nat) (hc : 0 < cap) (sched : List Step) (
     fin.win = (data.drop fin.position).take (fin.src.delivered - fin.position) ∧
     fin.src.rest = data.drop fin.src.delivered ∧ fin.src.delivered ≤ data.length := by
   intro fin
-  have h : Inv data fin := (lexAll_inv (Inv_closed data) fuel n (fromReader cap sched data) [] (Inv.start cap hc sched data)).1
+  have h : Inv data fin := by
+    have hh := lexAll_inv (Inv_closed data) fuel n (fromReader cap sched data) [] (Inv.start cap hc sched data)
+    by_cases hio : (lexAll fuel n (fromReader cap sched data) []).out = .err .io
+    · exact hh.2.1 hio
+    · exact hh.1 hio
   have hp := h.pos
   refine ⟨by omega, ?_, h.rest, by have := h.del; omega⟩
   have : fin.src.delivered - fin.position = fin.win.length := by omega
